@@ -6,6 +6,7 @@ import (
 	"context"
 	"fmt"
 	"io"
+	"math"
 	"math/rand"
 	"os"
 	"os/exec"
@@ -197,9 +198,11 @@ func bucket(n int) string {
 }
 
 func checkIndex(c *harness.Ctx, leg string, idx desync.Index, blob []byte, sz dsu.Sizes) bool {
-	ref := oracle.RefChunks(blob, sz.Min, sz.Avg, sz.Max)
+	var ref []uint64
 	if len(blob) > 64*1024 {
-		ref = oracle.RefChunksFast(blob, sz.Min, sz.Avg, sz.Max)
+		ref = oracle.RefChunksFast(blob, sz.Min, sz.Avg, sz.Max) // cross-checked against the direct definition in the anchor case
+	} else {
+		ref = oracle.RefChunks(blob, sz.Min, sz.Avg, sz.Max)
 	}
 	ok := true
 	if len(idx.Chunks) != len(ref) {
@@ -268,7 +271,40 @@ func run(c *harness.Ctx, i int) {
 	if big {
 		size = rng.Intn(24 << 20)
 	}
+	wideAvg := !big && leg != "cli" && i%30 == 3
+	if wideAvg {
+		// the discriminator is a function of avg alone: sweep avg (log-uniform, 8 KiB .. 192 KiB) with enough random data
+		// for a few cuts; min and max far away so that the hash rule decides every cut
+		avg := uint64(8192 * math.Pow(24, rng.Float64()))
+		sz = dsu.Sizes{Min: 48 + uint64(rng.Intn(64)), Avg: avg, Max: 8 * avg}
+		size = int(avg) * (2 + rng.Intn(3))
+		n = 1 + rng.Intn(4)
+	}
 	class, blob := makeInput(rng, sz, n, size)
+	if wideAvg {
+		class = "random-wide-avg"
+		blob = make([]byte, size)
+		rng.Read(blob)
+	}
+	if !big && leg != "cli" && i%10 == 4 {
+		// discriminator probe: a tiny input whose very first candidate window (the one ending at min+1) is built to be a
+		// cut point for exactly the discriminator that avg determines, and for neither neighbour of it; avg swept
+		// log-uniformly over 1 KiB .. 1 MiB (the larger avg, the more a sloppy computation of the formula shows)
+		avg := uint64(1024 * math.Pow(1024, rng.Float64()))
+		if w := oracle.FindWindow(oracle.Discriminator(avg), uint64(rng.Int63())); w != nil {
+			sz = dsu.Sizes{Min: 48 + uint64(rng.Intn(100)), Avg: avg, Max: avg + uint64(rng.Intn(int(avg)))}
+			blob = make([]byte, int(sz.Min)+1-48)
+			rng.Read(blob)
+			blob = append(blob, w...)
+			tail := make([]byte, 1+rng.Intn(300))
+			rng.Read(tail)
+			blob = append(blob, tail...)
+			size = len(blob)
+			class = "discriminator-probe"
+			leg = "next"
+			n = 1
+		}
+	}
 	if leg == "file" && !big && rng.Intn(3) == 0 {
 		// Strided tail: worker start offsets (size/n apart) are congruent modulo max only for
 		// every k-th worker, and the tail of the file has no content-defined cut points, so
